@@ -73,7 +73,7 @@ func init() {
 		"non-trivial iff at least one alternative form was used (positive case) or the invalid form was placed (negative case); distinct by (schema set, item, value seed, form seed, violation, site)",
 		[]string{"items the reference JSON writer does not model (unnamed fields in user combinators, dictionary keys other than string/int/long, multi-field repetitions) are counted and skipped", "reference values have unique sorted dictionary keys, no negative zero and no NaN payloads"},
 		[]floor{{"accepted", 0.3, ""}},
-		gOpts{QSets: []string{"sink", "casesnotl2", "cases"}, TSets: []string{"sink", "casesnotl2", "cases", "goldmaster"}},
+		gOpts{QSets: []string{"sink", "casesnotl2", "cases"}, TSets: []string{"sink", "casesnotl2", "cases", "goldmaster"}, QRand: 1, TRand: 8},
 	)
 	specs["C11"] = genSpec(
 		"Reference side: the schema is read again by the harness' own model and values are drawn by its generator. TL1: (1) reference bytes (refcodec: little-endian primitives, string length forms and padding, boxed tags including implicit CRC32 tags computed from the reference canonical form, local/external/nested field masks, size parameters, repetitions) must be accepted by generated readers exactly (7 appended bytes returned) and written back identically; (2) the same values enter generated code by name through canonical reference JSON and must leave it as the same TL1 bytes (catches a field order that is wrong consistently in reader and writer); (3) bytes written by generated code from harness values, and mutated encodings, must get the same verdict from the reference decoder, the same consumed length, and the reference re-encoding must reproduce what both accepted. TL2: (4) a reference TL2 writer written from TL2Primer (varlen sizes, one presence-mask byte before every 8 fields, variant index under bit 0, optional = masked fields, fm.N?true as bit, bool bytes, counted arrays, dictionaries as arrays of key/value objects, Maybe as union, minimal form) - generated WriteTL2 of the value read from reference TL1 bytes must equal it, and (5) generated ReadTL2 must accept the reference TL2 bytes exactly and yield the value whose TL1 bytes are the reference's.",
@@ -81,6 +81,6 @@ func init() {
 		"non-trivial iff the TL1 encoding has >= 12 bytes (accepted) or >= 8 bytes (rejected by both), or the TL2 encoding has >= 6 bytes; distinct by (schema set, item, direction, seeds, edits)",
 		[]string{"no reference TL2 decoder: the TL2 accept set is probed with reference-written bytes only (mutated TL2 bytes are compared differentially in C12/C13)", "vector<Bool> is an array of bool bytes as in the kernel (the primer's transition chapter says bit arrays; see DESIGN.md 0.5)", "field-less constructors as registry items of their own, arrays of true, unnamed fields in user combinators are counted and skipped"},
 		[]floor{{"both-rejected", 0.05, ""}, {"ref-to-gen", 0.2, ""}, {"tl2-write", 0.08, ""}},
-		gOpts{QSets: []string{"sink", "cases"}, TSets: []string{"sink", "cases", "goldmaster"}},
+		gOpts{QSets: []string{"sink", "cases"}, TSets: []string{"sink", "cases", "goldmaster"}, QRand: 1, TRand: 8},
 	)
 }
